@@ -556,7 +556,7 @@ fn latin1(b: &[u8]) -> String {
     b.iter().map(|c| *c as char).collect()
 }
 
-fn trim_sp(b: &[u8]) -> &[u8] {
+pub fn trim_sp(b: &[u8]) -> &[u8] {
     let mut s = 0;
     let mut e = b.len();
     while s < e && matches!(b[s], b' ' | b'\t') {
